@@ -81,8 +81,9 @@ def tt_union_rows(MatrixA: np.ndarray, MatrixB: np.ndarray) -> np.ndarray:
     _, location = tt_ismember_rows(
         MatrixBUnique[np.argsort(idxB)], MatrixAUnique[np.argsort(idxA)]
     )
+    # location is relative to the first-occurrence ordering used above
     union = np.vstack(
-        (MatrixB[np.sort(idxB[np.where(location < 0)])], MatrixA[np.sort(idxA)])
+        (MatrixB[np.sort(idxB)[np.where(location < 0)]], MatrixA[np.sort(idxA)])
     )
     return union
 
@@ -240,7 +241,8 @@ def tt_setdiff_rows(MatrixA: np.ndarray, MatrixB: np.ndarray) -> np.ndarray:
     valid, location = tt_ismember_rows(
         MatrixBUnique[np.argsort(idxB)], MatrixAUnique[np.argsort(idxA)]
     )
-    return np.setdiff1d(idxA, location[valid])
+    # location indexes the unique rows of A in first-occurrence order, map to rows of A
+    return np.setdiff1d(idxA, np.sort(idxA)[location[valid]])
 
 
 def tt_intersect_rows(MatrixA: np.ndarray, MatrixB: np.ndarray) -> np.ndarray:
@@ -279,7 +281,8 @@ def tt_intersect_rows(MatrixA: np.ndarray, MatrixB: np.ndarray) -> np.ndarray:
     valid, location = tt_ismember_rows(
         MatrixBUnique[np.argsort(idxB)], MatrixAUnique[np.argsort(idxA)]
     )
-    return location[valid]
+    # location indexes the unique rows of A in first-occurrence order, map to rows of A
+    return np.sort(idxA)[location[valid]]
 
 
 def tt_irenumber(
